@@ -39,6 +39,7 @@ type C06Case struct {
 	Attempts []C06Fault `json:"attempts"`    // script for attempt 1..n; further attempts get "ok"
 	HoldMs   int        `json:"hold_ms"`     // pause of the handler after the first write (lets an early fault land while streaming)
 	HeaderMs int        `json:"header_ms"`   // pause of the handler before WriteHeader (a slow backend: all attempts may fail before the response exists)
+	Scribble bool       `json:"scribble"`    // the transport's reads of the upload body go through a caller that overwrites its read buffer as soon as it has used the data (io.Reader allows that; net/http pools such buffers)
 	LockStep bool       `json:"lock_step"`   // after its first write the handler continues only when a later attempt has received that first part (or 8 s have passed): a producer that waits for its consumer
 	VMID     bool       `json:"vm_identity"` // the proxy client is wrapped the way the agent wraps it on GCE (utils.RoundTripperWithVMIdentity, fake metadata server)
 }
@@ -315,6 +316,9 @@ func c06Run(c C06Case, bound time.Duration) C06Result {
 	}
 	client := &http.Client{Timeout: 60 * time.Second, Transport: &http.Transport{}}
 	defer client.CloseIdleConnections()
+	if c.Scribble {
+		client.Transport = c06ScribbleRT{client.Transport}
+	}
 	if c.VMID {
 		vctx, vcancel := context.WithCancel(context.Background())
 		defer vcancel()
@@ -535,3 +539,38 @@ func c06StartMetadata() {
 		os.Setenv("GCE_METADATA_HOST", l.Addr().String())
 	})
 }
+
+// c06ScribbleRT hands the request body to the real transport through a reader
+// that reads into a buffer of its own and overwrites that buffer once the data
+// has been copied out: whoever keeps a reference to a caller's read buffer
+// instead of a copy sees '#' bytes.
+type c06ScribbleRT struct{ rt http.RoundTripper }
+
+func (t c06ScribbleRT) RoundTrip(r *http.Request) (*http.Response, error) {
+	if r.Body != nil {
+		r2 := r.Clone(r.Context())
+		r2.Body = &c06ScribbleBody{inner: r.Body}
+		r = r2
+	}
+	return t.rt.RoundTrip(r)
+}
+
+type c06ScribbleBody struct {
+	inner io.ReadCloser
+	buf   []byte
+}
+
+func (b *c06ScribbleBody) Read(p []byte) (int, error) {
+	if len(b.buf) < len(p) {
+		b.buf = make([]byte, len(p))
+	}
+	n, err := b.inner.Read(b.buf[:len(p)])
+	copy(p, b.buf[:n])
+	// once Read has returned, the whole buffer is the caller's again, whatever n and err were
+	for i := 0; i < len(p); i++ {
+		b.buf[i] = '#'
+	}
+	return n, err
+}
+
+func (b *c06ScribbleBody) Close() error { return b.inner.Close() }
